@@ -199,6 +199,9 @@ class _BaseLayout(MaildirLayout[_MaildirT], metaclass=ABCMeta):
 
     def get_folder(self, name: str, delimiter: str) -> _MaildirT:
         path = self.get_path(name, delimiter)
+        if not os.path.isdir(path):
+            # missing, or one of the store's own files (fs layout)
+            raise FileNotFoundError(path)
         try:
             return self._maildir(path, create=False)
         except NoSuchMailboxError as exc:
@@ -323,6 +326,25 @@ class FilesystemLayout(_BaseLayout[_MaildirT]):
         maildir_type: The :class:`~mailbox.Maildir` class override.
 
     """
+
+    #: Names of the directories and files a mailbox directory consists of.
+    _reserved = frozenset(['cur', 'new', 'tmp', 'maildirfolder',
+                           'dovecot-uidlist', 'dovecot-uidlist.lock',
+                           'dovecot-keywords', 'subscriptions',
+                           'subscriptions.lock', 'dovecot.sieve'])
+
+    @classmethod
+    def _split(cls, name: str, delimiter: str) -> _Parts:
+        parts = super()._split(name, delimiter)
+        for part in parts:
+            # With nested directories a mailbox named like one of the
+            # directories every maildir consists of *is* that directory of
+            # its parent mailbox: DELETE cur would remove INBOX's messages,
+            # CREATE subscriptions would put a directory where the
+            # subscriptions file belongs.
+            if part in cls._reserved:
+                raise FileNotFoundError(name)
+        return parts
 
     def _get_path(self, parts: _Parts) -> str:
         return os.path.join(self._path, *parts)
